@@ -69,3 +69,101 @@ T('C17', 'Coq proof that the model of StdLibCompatibleString equals the Table 3-
 
 PROPS['C05']['static_files'] = BASE_STATIC + ['IntSpec.v', 'IntFacts.v']
 PROPS['C17']['static_files'] = BASE_STATIC + ['Compat.v', 'CompatFacts.v']
+
+# ---------------------------------------------------------------- run-time extras (C18, C19, C20)
+import subprocess, os, re, time
+
+_ENV = dict(os.environ, GOFLAGS='-mod=mod', GOPROXY='off', GOSUMDB='off', GOTOOLCHAIN='local')
+
+
+def _run(cmd, timeout, cwd=None):
+    try:
+        r = subprocess.run(cmd, env=_ENV, cwd=cwd, timeout=timeout, stdout=subprocess.PIPE, stderr=subprocess.PIPE)
+        return r.returncode, r.stdout.decode(errors='replace'), r.stderr.decode(errors='replace')
+    except subprocess.TimeoutExpired:
+        return 124, '', 'timeout'
+
+
+def extra_allocs(B, tier, seed):
+    """C19: testing.AllocsPerRun on warm successful calls must be 0 (and a cold Buffer must allocate)"""
+    rc, out, err = _run([B + '/bin/harness', 'allocs', tier, str(seed)], 1500)
+    res = {'suite': 'allocs(AllocsPerRun)', 'cases': 0, 'violations': []}
+    if rc != 0:
+        res['error'] = 'allocs run failed: ' + (out + err)[-800:]
+        return res
+    for l in out.split('\n'):
+        if l.startswith('ALLOC '):
+            f = l.split()
+            res['violations'].append({'case': 'allocs %s %s' % (f[1], f[2]), 'impl': 'allocs/op = ' + f[3], 'expected': '0 allocations on a warm successful call', 'by': 'AllocsPerRun'})
+        m = re.match(r'SUMMARY cases=(\d+) successful=(\d+) nonzero=(\d+) cold_buffer_allocs=(\S+) functions=(\d+)', l)
+        if m:
+            res['cases'] = int(m.group(2))
+            res['distinct_nontrivial'] = int(m.group(2))
+            res['generated'] = int(m.group(1))
+            res['functions_covered'] = int(m.group(5))
+            res['cold_buffer_allocs'] = float(m.group(4))
+            if float(m.group(4)) < 1:
+                res['error'] = 'instrumentation vacuous: a cold Buffer on a nested document did not allocate'
+        if l.startswith('FUNCTIONS '):
+            res['histogram'] = dict(x.split(':') for x in l.split()[1:])
+    res['samples'] = [{'case': 'AllocsPerRun(3, fn) for %s warm successful calls over %s functions' % (res['cases'], res.get('functions_covered'))}]
+    return res
+
+
+def extra_cost(B, tier, seed):
+    """C20: TotalAlloc of adversarial document/histories families at growing sizes: linear, bounded per byte"""
+    rc, out, err = _run([B + '/bin/harness', 'cost', tier, str(seed)], 1500)
+    res = {'suite': 'cost(TotalAlloc)', 'cases': 0, 'violations': [], 'families': {}}
+    if rc != 0:
+        res['error'] = 'cost run failed: ' + (out + err)[-800:]
+        return res
+    n = 0
+    for l in out.split('\n'):
+        if l.startswith('COST '):
+            n += 1
+        m = re.match(r'FAMILY (\S+) superlinearity=(\S+) max_per_byte=(\S+)', l)
+        if m:
+            name, sup, per = m.group(1), float(m.group(2)), float(m.group(3))
+            res['families'][name] = {'superlinearity': sup, 'max_bytes_per_input_byte': per}
+            # sizes span a factor 4 (quick) / 8 (thorough): quadratic growth gives 4 / 8, linear gives ~1
+            if sup > 2.2 or per > 8000:
+                res['violations'].append({'case': 'cost ' + name, 'impl': 'allocated bytes grow super-linearly (x%.2f per byte over the size range) or exceed 8000 B per input byte (%.0f)' % (sup, per),
+                                          'expected': 'total allocation <= K*len(inputs) + K*calls', 'by': 'TotalAlloc'})
+    res['cases'] = n
+    res['distinct_nontrivial'] = n
+    res['samples'] = [{'case': k, 'measured': v} for k, v in list(res['families'].items())[:4]]
+    return res
+
+
+def extra_race(B, tier, seed):
+    """C18: whole API from 16 goroutines on shared read-only inputs under the race detector"""
+    res = {'suite': 'race(-race, 16 goroutines)', 'cases': 0, 'violations': []}
+    exe = B + '/bin/harness-race'
+    if not os.path.exists(exe):
+        rc, out, err = _run(['go', 'build', '-race', '-tags', 'verif', '-o', exe, '.'], 1500, cwd='/verif/harness')
+        if rc != 0:
+            res['error'] = 'cannot build the harness with -race: ' + (out + err)[-800:]
+            return res
+    rc, out, err = _run([exe, 'race', tier, str(seed)], 1500)
+    m = re.search(r'RACE-SUMMARY docs=(\d+) workers=(\d+) calls=(\d+) mismatches=(\d+) inputs_modified=(\d+)', out)
+    if m:
+        res['cases'] = int(m.group(3))
+        res['distinct_nontrivial'] = int(m.group(1))
+        res['samples'] = [{'case': 'race: %s documents x %s goroutines, %s API calls' % (m.group(1), m.group(2), m.group(3))}]
+        if int(m.group(4)) or int(m.group(5)):
+            res['violations'].append({'case': 'race ' + tier + ' ' + str(seed), 'impl': m.group(0), 'expected': 'concurrent results equal sequential results, inputs untouched', 'by': 'concurrent-vs-sequential'})
+    if 'DATA RACE' in err or rc == 66:
+        res['violations'].append({'case': 'race ' + tier + ' ' + str(seed), 'impl': 'race detector report: ' + err[:1500], 'expected': 'no data race', 'by': 'go race detector'})
+    elif rc != 0 and not res['violations']:
+        res['error'] = 'race run failed rc=%s: %s' % (rc, (out + err)[-800:])
+    return res
+
+
+P('C19', suites=[], run_files=['Tie.v', 'TieAlloc.v'], gen_files=['gen/GenFacts.v'], static_files=BASE_STATIC + ['AllocSpec.v'], extras=[extra_allocs],
+  trusted=['Go escape analysis, append growth policy and interface boxing are measured (testing.AllocsPerRun), not modelled'])
+T('C19', 'PARTIAL: proof-of-model + measurement. Coq: the inventory of allocation-capable expressions and call targets of every covered function, regenerated from /repo on every run, equals the recorded one whose every entry is guarded or on an error path (AllocSpec.v); run time: testing.AllocsPerRun = 0 on warm successful calls on every conversion path, >= 1 on a cold buffer',
+  _TIE + 'The allocator/escape analysis is not modelled: a theorem alone cannot exhibit a heap allocation.', 'Coq tie on regenerated allocation-site inventory + AllocsPerRun measurement')
+P('C20', suites=[], run_files=['Tie.v'], static_files=BASE_STATIC, extras=[extra_cost],
+  trusted=['runtime.MemStats.TotalAlloc as the cost measure; runtime constants (bytes per map slot, append doubling) are measured'])
+T('C20', 'PARTIAL: proof-of-model + measurement. Run time: TotalAlloc of adversarial families (large container then many small siblings, reused reader after a huge document, escapes at every nesting level, deep nesting, many small documents) at sizes spanning x4/x8 must stay linear and below a fixed constant per input byte',
+  _TIE + 'The Go allocator is measured, not modelled.', 'size-hint model + TotalAlloc measurement of adversarial families')
